@@ -234,6 +234,20 @@ func runC05(t *testing.T, tape *sim.Tape, tier string) *Outcome {
 					o.violate("c05:args:"+r.Name, "%s: first handler call\n  got  %v\n  want %v\n  reply %s", where, got, want, reply)
 					continue
 				}
+				if r.Derive != nil && len(recs) > 0 {
+					// derived read-modify-write: the write-back and the reply follow from what the read returned
+					if rest, wantReply := r.Derive(recs[0].call); wantReply != nil {
+						full := append(append([]string{}, want[:1]...), rest...)
+						if strings.Join(got, "\n") != strings.Join(full, "\n") {
+							o.violate("c05:args:"+r.Name, "%s: handler calls\n  got  %v\n  want %v\n  reply %s", where, got, full, reply)
+							continue
+						}
+						if !reply.Equal(*wantReply) {
+							o.violate("c05:reply:"+r.Name, "%s: client received %s, expected %s", where, reply, *wantReply)
+						}
+						o.stat("derived_commands_checked", 1)
+					}
+				}
 			case wl.System:
 				if r.Name == "AUTH" && strings.Join(got, "\n") != strings.Join(want, "\n") {
 					o.violate("c05:args:AUTH", "%s: auth handler calls got %v want %v", where, got, want)
